@@ -1,42 +1,44 @@
 #!/venv/bin/python
-"""tools/run_seeded.py [<Cxx-mk> ...] — apply each seeded change in /verif/seeded to /repo, run the quick check of its
-property, revert /repo, and record the outcome in seeded/<id>/meta.json. /repo is always restored."""
+"""tools/run_seeded.py [<Cxx-mk> ...] — apply each seeded change in /verif/seeded to a scratch git worktree of /repo's HEAD
+(outside /repo and /verif, removed afterwards), run the quick check of its property against it (VERIF_REPO), and record the
+outcome in seeded/<id>/meta.json. /repo itself is never modified, so this can run while other checks use /repo."""
 import json, os, subprocess, sys, re
 HERE = os.path.dirname(os.path.dirname(os.path.abspath(__file__)))
 SEEDED = os.path.join(HERE, 'seeded')
 ids = sys.argv[1:] or sorted(d for d in os.listdir(SEEDED) if os.path.isdir(os.path.join(SEEDED, d)))
 extra = {}
 summary = []
-for mid in ids:
+WT = '/tmp/wt/seedrun-%d' % os.getpid()
+subprocess.run(['git', '-C', '/repo', 'worktree', 'add', '-q', '--detach', WT, 'HEAD'], check=True)
+try:
+  for mid in ids:
     d = os.path.join(SEEDED, mid)
     pid = mid.split('-')[0]
-    if subprocess.run(['git', '-C', '/repo', 'diff', '--quiet']).returncode != 0:
-        print('/repo dirty; abort'); sys.exit(2)
-    ap = subprocess.run(['git', '-C', '/repo', 'apply', os.path.join(d, 'patch.diff')], capture_output=True, text=True)
+    subprocess.run(['git', '-C', WT, 'checkout', '-q', '--', '.'])
+    subprocess.run(['git', '-C', WT, 'clean', '-fdq'])
+    ap = subprocess.run(['git', '-C', WT, 'apply', os.path.join(d, 'patch.diff')], capture_output=True, text=True)
     meta_p = os.path.join(d, 'meta.json')
     meta = json.load(open(meta_p)) if os.path.exists(meta_p) else {}
     notes = open(os.path.join(d, 'notes.md')).read() if os.path.exists(os.path.join(d, 'notes.md')) else ''
-    meta.update({'id': mid, 'property': pid, 'base_commit': open(os.path.join(d, '.base')).read().strip() if os.path.exists(os.path.join(d, '.base')) else None,
+    meta.update({'id': mid, 'property': meta.get('property') or pid, 'base_commit': open(os.path.join(d, '.base')).read().strip() if os.path.exists(os.path.join(d, '.base')) else None,
                  'needs_to_manifest': meta.get('needs_to_manifest') or notes[:1500],
                  'confirmed_by': 'tools/confirm_mutant.sh: patch applied in a scratch worktree, 82 repository tests pass, demo.py exits 1 with the change and 0 without'})
     if ap.returncode != 0:
         meta['detection'] = {'status': 'patch no longer applies to /repo HEAD (a later fix: commit touched the same lines)', 'stderr': ap.stderr[-300:]}
         print(mid, 'PATCH-DOES-NOT-APPLY')
     else:
-        try:
-            t = subprocess.run(['/venv/bin/python', '-m', 'pytest', '-q', '-p', 'no:cacheprovider'], cwd='/repo', capture_output=True, text=True).stdout.strip().splitlines()[-1]
-            checks = meta.get('checks') or [pid]
-            det = {}
-            for c in checks:
-                env = dict(os.environ, VERIF_NO_EVIDENCE='1')
-                r = subprocess.run([os.path.join(HERE, 'bin/check'), c, '--tier', 'quick'], cwd=HERE, capture_output=True, text=True, env=env)
-                what = re.findall(r'^  what: (.*)$', r.stdout, re.M)
-                det[c] = {'exit': r.returncode, 'violation_lines': len(re.findall(r'^VIOLATION', r.stdout, re.M)), 'first': what[0][:300] if what else None}
-            meta['detection'] = {'repo_tests_with_change': t, 'checks': det, 'detected': any(v['exit'] == 1 for v in det.values())}
-            print(mid, 'tests:', t, '|', {c: v['exit'] for c, v in det.items()}, '|', (list(det.values())[0]['first'] or '')[:120])
-        finally:
-            subprocess.run(['git', '-C', '/repo', 'checkout', '--', '.'])
-            subprocess.run(['git', '-C', '/repo', 'clean', '-fdq', '--', 'ombott'])
+        env = dict(os.environ, VERIF_NO_EVIDENCE='1', VERIF_REPO=WT, PYTHONPATH=WT)
+        t = subprocess.run(['/venv/bin/python', '-m', 'pytest', '-q', '-p', 'no:cacheprovider'], cwd=WT, capture_output=True, text=True, env=env).stdout.strip().splitlines()[-1]
+        checks = meta.get('checks') or [pid]
+        det = {}
+        for c in checks:
+            r = subprocess.run([os.path.join(HERE, 'bin/check'), c, '--tier', 'quick'], cwd=HERE, capture_output=True, text=True, env=env)
+            what = re.findall(r'^  what: (.*)$', r.stdout, re.M)
+            det[c] = {'exit': r.returncode, 'violation_lines': len(re.findall(r'^VIOLATION', r.stdout, re.M)), 'first': what[0][:300] if what else None}
+        meta['detection'] = {'repo_tests_with_change': t, 'checks': det, 'detected': any(v['exit'] == 1 for v in det.values())}
+        print(mid, 'tests:', t, '|', {c: v['exit'] for c, v in det.items()}, '|', (list(det.values())[0]['first'] or '')[:120])
     json.dump(meta, open(meta_p, 'w'), indent=1)
     summary.append((mid, meta['detection'].get('detected')))
+finally:
+  subprocess.run(['git', '-C', '/repo', 'worktree', 'remove', '--force', WT])
 print('detected %d / %d' % (sum(1 for _, d in summary if d), len(summary)))
